@@ -11,9 +11,21 @@ H="$ROOT/harness"
 export GOPROXY=off GOFLAGS=-mod=mod
 unset GOSUMDB GOTOOLCHAIN 2>/dev/null || true
 export VERIF_ROOT="$ROOT"
+# VERIF_REPO: the tree under test (default /repo; scratch worktrees for seeded changes / mutants set it)
+# VERIF_OUT : where evidence/, artifacts/ and .bin/ go (default: this directory; scratch runs set it so that
+#             the committed evidence is not touched and runs can go in parallel)
+REPO="${VERIF_REPO:-/repo}"
+OUT="${VERIF_OUT:-$ROOT}"
+export VERIF_OUT="$OUT"
+MODFLAG=""
+if [ "$REPO" != /repo ]; then
+  mkdir -p "$OUT/.bin"
+  sed "s|=> /repo\$|=> $REPO|" "$H/go.mod" > "$OUT/.bin/alt.go.mod"; cp "$H/go.sum" "$OUT/.bin/alt.go.sum"
+  MODFLAG="-modfile=$OUT/.bin/alt.go.mod"
+fi
 
 GO=go
-if ! (cd /repo && $GO version >/dev/null 2>&1); then
+if ! (cd "$REPO" && $GO version >/dev/null 2>&1); then
   # fall back to the newer cached toolchain
   GO=go1.26.8; export GOTOOLCHAIN=local GOSUMDB=off
 fi
@@ -23,22 +35,21 @@ lower() { echo "$1" | tr 'A-Z' 'a-z'; }
 build_check() { # $1 = id (C05) -> bin path on stdout
   local id="$1" pkg bin
   pkg="./checks/$(lower "$id")"
-  bin="$ROOT/.bin/$(lower "$id").test"
-  mkdir -p "$ROOT/.bin"
-  ( cd "$H" && $GO test -c -race -tags verif -vet=off -o "$bin" "$pkg" ) >&2 || return 1
+  bin="$OUT/.bin/$(lower "$id").test"
+  mkdir -p "$OUT/.bin"
+  ( cd "$H" && $GO test $MODFLAG -c -race -tags verif -vet=off -o "$bin" "$pkg" ) >&2 || return 1
   echo "$bin"
 }
 
 cmd="${1:-}"
 case "$cmd" in
   setup)
-    mkdir -p "$ROOT/.bin" "$ROOT/evidence" "$ROOT/artifacts"
+    mkdir -p "$OUT/.bin" "$OUT/evidence" "$OUT/artifacts"
     rc=0
     for d in "$H"/checks/*/; do
       id="$(basename "$d")"
       build_check "$id" >/dev/null || rc=1
     done
-    if [ -d "$H/cmd/verif-node" ]; then ( cd "$H" && $GO build -race -tags verif -o "$ROOT/.bin/verif-node" ./cmd/verif-node ) || rc=1; fi
     exit $rc
     ;;
   "")
@@ -56,19 +67,16 @@ fi
 
 export VERIF_TIER="$MODE"
 export VERIF_SEED="${VERIF_SEED:-1}"
-mkdir -p "$ROOT/evidence" "$ROOT/artifacts/$ID"
-LOG="$ROOT/artifacts/$ID/last-$MODE.log"
+mkdir -p "$OUT/evidence" "$OUT/artifacts/$ID"
+LOG="$OUT/artifacts/$ID/last-$MODE.log"
 
 BIN="$(build_check "$ID")" || { echo "INCONCLUSIVE property=$ID build failed"; exit 3; }
-if [ -d "$H/cmd/verif-node" ]; then
-  ( cd "$H" && $GO build -race -tags verif -o "$ROOT/.bin/verif-node" ./cmd/verif-node ) || { echo "INCONCLUSIVE property=$ID verif-node build failed"; exit 3; }
-fi
-export VERIF_NODE="$ROOT/.bin/verif-node" VERIF_GOFAIL="$ROOT/.bin/gofail" VERIF_GO="$GO"
+export VERIF_GO="$GO" VERIF_REPO="$REPO" VERIF_MODFLAG="$MODFLAG"
 
 if [ "$MODE" = thorough ]; then WD="${VERIF_WATCHDOG:-7200}"; GT=7000s; else WD="${VERIF_WATCHDOG:-900}"; GT=850s; fi
 
 export GORACE="halt_on_error=1 exitcode=66"
-rm -f "$ROOT/evidence/$ID.json" "$ROOT/artifacts/$ID/$MODE-seed$VERIF_SEED-"*
+rm -f "$OUT/evidence/$ID.json" "$OUT/artifacts/$ID/$MODE-seed$VERIF_SEED-"*
 ( cd "$H/checks/$(lower "$ID")" && timeout -s QUIT "$WD" "$BIN" -test.v -test.timeout "$GT" -test.run "Test$ID\$" ) >"$LOG" 2>&1
 rc=$?
 
@@ -76,14 +84,14 @@ grep -E '^(VIOLATION|KNOWN-FINDING|SUMMARY|INCONCLUSIVE|  counter|  signature)' 
 
 if grep -q '^VIOLATION property=' "$LOG"; then exit 1; fi
 case $rc in
-  0) if [ -s "$ROOT/evidence/$ID.json" ]; then exit 0; else echo "INCONCLUSIVE property=$ID no evidence written"; exit 3; fi ;;
+  0) if [ -s "$OUT/evidence/$ID.json" ]; then exit 0; else echo "INCONCLUSIVE property=$ID no evidence written"; exit 3; fi ;;
   124|131) echo "INCONCLUSIVE property=$ID watchdog fired after ${WD}s (log: $LOG)"; exit 3 ;;
   3) exit 3 ;;
   *)
     # the child died: a race report (exit 66), a panic or fatal error in the code under test, or os.Exit(1) without a line
     if grep -q '^panic: test timed out' "$LOG"; then echo "INCONCLUSIVE property=$ID go test timeout (log: $LOG)"; exit 3; fi
     if grep -q 'WARNING: DATA RACE' "$LOG"; then kind=data-race; elif grep -qE '^(panic:|fatal error:)' "$LOG"; then kind=crash; else kind="exit-$rc"; fi
-    W="$ROOT/artifacts/$ID/$MODE-seed$VERIF_SEED-$kind.log"; cp "$LOG" "$W"
+    W="$OUT/artifacts/$ID/$MODE-seed$VERIF_SEED-$kind.log"; cp "$LOG" "$W"
     echo "VIOLATION property=$ID replay=$W"
     echo "  signature: child-$kind"
     exit 1 ;;
